@@ -142,6 +142,11 @@ Definition comp_maj (adj : list (list Z)) (l : Z) : cnf :=
 Definition flip_polarity (N : Z) (F : cnf) : Z * cnf :=
   let out := apply_subst F flip_gadget in (numvar_add 0 out, out).
 
+(* the documented behaviour (fixes/D32.diff: the new formula starts with
+   update_variable_number(F.number_of_variables())) *)
+Definition flip_polarity_spec (N : Z) (F : cnf) : Z * cnf :=
+  let out := apply_subst F flip_gadget in (numvar_add N out, out).
+
 Definition xor_substitution N k F := block_subst N k F (xorify k).
 Definition or_substitution N k F := block_subst N k F (orify k).
 Definition majority_substitution N k F := block_subst N k F (majorify k).
